@@ -5,7 +5,7 @@ CONSTANTS
   Idents = {"a", "foo_bar", "r#type", "class", "x_", "http_url_v2", "user_id", "id", "ID", "API_KEY", "userName"}
   Renames = {"$ref", "none", "other", "parentId", "foo-bar", "class"}
   RuleSet = {"none", "lowercase", "UPPERCASE", "PascalCase", "camelCase", "snake_case", "SCREAMING_SNAKE_CASE", "kebab-case", "SCREAMING-KEBAB-CASE"}
-  Spellings = {"merged", "split"}
+  Spellings = {"after_list", "merged", "split"}
   EnumRules = {"none", "SCREAMING_SNAKE_CASE"}
 INIT Init
 NEXT Next
